@@ -1055,7 +1055,73 @@ impl Hist {
                 };
                 format!("H xpos {} {} {} {} {} {} {} {}", kind, ver, id, auth, a1, a2, fa, fb)
             }
-            47..=49 => format!("H upd {}", id),
+            47 => {
+                // increase_liquidity_by_token_amounts_v2: liquidity derived from token maxima inside a price window
+                let fee = |r: &mut Rng| -> String {
+                    if r.chance(1, 2) {
+                        return "65535 0 0".to_string();
+                    }
+                    format!("{} {} {}", r.pick(&[0u64, 1, 100, 300, 5000, 9999, 10000]), r.pick(&[0u64, 1, 5000, 1_000_000, u64::MAX]), b(r.chance(1, 2)))
+                };
+                let (fa, fb) = (fee(r), fee(r));
+                let amt = |r: &mut Rng| -> u64 {
+                    match r.below(5) {
+                        0 => 0,
+                        1 => r.pick(&[1u64, 2, 1000, u64::MAX, u64::MAX / 4]),
+                        _ => r.log_u128(62) as u64,
+                    }
+                };
+                let price = { wp.sqrt_price };
+                let (minp, maxp) = match r.below(6) {
+                    0 => (price, price),
+                    1 => (price + 1, u128::MAX),
+                    2 => (0, price.saturating_sub(1)),
+                    _ => (0u128, u128::MAX),
+                };
+                let auth = r.pick(&[0u8, 0, 0, 0, 0, 0, 1, 2]);
+                format!("H xliqt {} {} {} {} {} {} {} {}", id, amt(r), amt(r), minp, maxp, fa, fb, auth)
+            }
+            48 => {
+                // reposition_liquidity_v2: withdraw all, re-range, deposit, net transfers
+                let fee = |r: &mut Rng| -> String {
+                    if r.chance(1, 2) {
+                        return "65535 0 0".to_string();
+                    }
+                    format!("{} {} {}", r.pick(&[0u64, 1, 100, 300, 5000, 9999, 10000]), r.pick(&[0u64, 1, 5000, 1_000_000, u64::MAX]), b(r.chance(1, 2)))
+                };
+                let (fa, fb) = (fee(r), fee(r));
+                let ts = wp.tick_spacing;
+                let cur = wp.tick_current_index;
+                let span = (ts as i32) * r.pick(&[1, 2, 5, 20, 88, 200]);
+                let (nlo, nhi): (i64, i64) = if ts >= 32768 {
+                    if r.chance(1, 4) { (p.tick_lower_index as i64, p.tick_upper_index as i64) } else { (((-443636 / ts as i32) * ts as i32) as i64, ((443636 / ts as i32) * ts as i32) as i64 - if r.chance(1, 5) { ts as i64 } else { 0 }) }
+                } else {
+                    match r.below(8) {
+                        0 => (p.tick_lower_index as i64, p.tick_upper_index as i64),
+                        1 => (usable(r, ts, cur - span, cur + span) as i64 + 1, usable(r, ts, cur, cur + 2 * span) as i64),
+                        2 => {
+                            let x = usable(r, ts, cur - span, cur + span) as i64;
+                            (x, x)
+                        }
+                        3 => (p.tick_lower_index as i64, usable(r, ts, p.tick_lower_index + ts as i32, p.tick_lower_index + 2 * span).max(p.tick_lower_index + ts as i32) as i64),
+                        _ => {
+                            let lo = usable(r, ts, cur - span, cur + span / 2);
+                            let hi = usable(r, ts, lo + ts as i32, lo + 2 * span).max(lo + ts as i32);
+                            (lo as i64, hi as i64)
+                        }
+                    }
+                };
+                let new_liq: u128 = match r.below(6) {
+                    0 => 0,
+                    1 => p.liquidity.max(1),
+                    2 => (p.liquidity / 2).max(1),
+                    3 => p.liquidity.saturating_mul(2).max(1),
+                    _ => r.log_u128(70).max(1),
+                };
+                let auth = r.pick(&[0u8, 0, 0, 0, 0, 0, 1, 2]);
+                format!("H xrepo {} {} {} {} {} {} {} {}", id, nlo, nhi, new_liq, r.pick(&[0u8, 0, 1, 2]), fa, fb, auth)
+            }
+            49 => format!("H upd {}", id),
             50..=54 => format!("H cfees {}", id),
             55..=57 => "H cproto".to_string(),
             58..=59 if wp.liquidity > 0 && (w.snap.is_none() || r.chance(1, 4)) => "H snap".to_string(),
@@ -1292,6 +1358,38 @@ impl Family for Hist {
                     ctx.tag("xsub");
                     // skipped experiments (control fails / no look-alike exists) are counted in the tags
                     (if o.line == "ACCEPTED" { "ACCEPTED" } else { "rejected" }).to_string() + " | " + &w.digest()
+                }
+                Err(_) => "err HarnessPanic | ".to_string() + &w.digest(),
+            };
+        }
+        if t[1] == "xrepo" {
+            let o = std::panic::catch_unwind(std::panic::AssertUnwindSafe(|| w.x_repo(&t)));
+            return match o {
+                Ok(o) => {
+                    for v in o.viols {
+                        ctx.viol(v);
+                    }
+                    for tg in o.tags {
+                        ctx.tag(tg);
+                    }
+                    ctx.tag("xrepo");
+                    o.line + " | " + &w.digest()
+                }
+                Err(_) => "err HarnessPanic | ".to_string() + &w.digest(),
+            };
+        }
+        if t[1] == "xliqt" {
+            let o = std::panic::catch_unwind(std::panic::AssertUnwindSafe(|| w.x_liqt(&t)));
+            return match o {
+                Ok(o) => {
+                    for v in o.viols {
+                        ctx.viol(v);
+                    }
+                    for tg in o.tags {
+                        ctx.tag(tg);
+                    }
+                    ctx.tag("xliqt");
+                    o.line + " | " + &w.digest()
                 }
                 Err(_) => "err HarnessPanic | ".to_string() + &w.digest(),
             };
